@@ -1,25 +1,35 @@
 (* C17 correspondence: functions evaluated by the case files the harness writes.
-   A case is (input, observed) where observed = Some output | None (panic). *)
+   A case is (input, observed, redirected) where observed = Some output | None (panic)
+   is what CleanPath returned, and redirected = Some b records, for inputs that were also
+   sent as a request path to a router with redirecting trailing-slash routes, whether
+   ServeHTTP answered with a trailing-slash redirect (301/308). *)
 From FoxBase Require Import Bytes.
 From FoxC17 Require Import Spec Model.
 
-Definition case := (bytes * option bytes)%type.
+Definition case := (bytes * option bytes * option bool)%type.
+Definition c_in (c : case) : bytes := fst (fst c).
+Definition c_out (c : case) : option bytes := snd (fst c).
+Definition c_redirected (c : case) : bool := match snd c with Some true => true | _ => false end.
 
 Definition model_agrees (c : case) : bool :=
-  match cleanpath (fst c), snd c with
+  match cleanpath (c_in c), c_out c with
   | Ok o, Some o' => bytes_eqb o o'
   | Panic, None => true
   | _, _ => false
-  end.
+  end &&
+  (* the redirect guard of ServeHTTP (fox.go:566): path == CleanPath(path) *)
+  (negb (c_redirected c) || match cleanpath (c_in c) with Ok o => bytes_eqb o (c_in c) | _ => false end).
 
 Definition spec_ok (c : case) : bool :=
-  match snd c with
-  | Some o => bytes_eqb o (clean_spec (fst c)) && canonical o
+  match c_out c with
+  | Some o => bytes_eqb o (clean_spec (c_in c)) && canonical o
   | None => false
-  end.
+  end &&
+  (* a trailing-slash redirect is only ever issued for request paths already in canonical form *)
+  (negb (c_redirected c) || canonical (c_in c)).
 
 Definition out_of_fuel (c : case) : bool :=
-  match cleanpath (fst c) with OutOfFuel => true | _ => false end.
+  match cleanpath (c_in c) with OutOfFuel => true | _ => false end.
 
 Definition mismatches (cs : list case) : list nat := true_idx (map (fun c => negb (model_agrees c)) cs).
 Definition spec_violations (cs : list case) : list nat := true_idx (map (fun c => negb (spec_ok c)) cs).
